@@ -8,6 +8,7 @@ import (
 	"encoding/json"
 	"fmt"
 	"os"
+	"sort"
 
 	"verif/c07/gen"
 )
@@ -20,12 +21,45 @@ func main() {
 	dir := os.Args[1]
 	var files []string
 	want := ""
+	reload := 0
 	for i := 2; i < len(os.Args); i++ {
 		if os.Args[i] == "-text" {
 			want = os.Args[i+1]
 			break
 		}
+		if os.Args[i] == "-reload" {
+			fmt.Sscan(os.Args[i+1], &reload)
+			break
+		}
 		files = append(files, os.Args[i])
+	}
+	if reload > 0 {
+		// load the program again and again in this process: every load has
+		// its own FileSet, filled by go/packages' parser goroutines in an
+		// order nobody controls
+		seen := map[string]map[string]bool{}
+		for k := 0; k < reload; k++ {
+			l, err := gen.Load(dir, files)
+			if err != nil {
+				fmt.Fprintln(os.Stderr, "load:", err)
+				os.Exit(2)
+			}
+			for n, text := range l.GenerateAll() {
+				if seen[n] == nil {
+					seen[n] = map[string]bool{}
+				}
+				seen[n][gen.Hash(text)] = true
+			}
+		}
+		res := map[string][]string{}
+		for n, hs := range seen {
+			for h := range hs {
+				res[n] = append(res[n], h)
+			}
+			sort.Strings(res[n])
+		}
+		json.NewEncoder(os.Stdout).Encode(res)
+		return
 	}
 	l, err := gen.Load(dir, files)
 	if err != nil {
